@@ -37,6 +37,10 @@ def families(name):
         cands = [(0, 1), (1, 2), (2, 3), (3, 4), (0, 4), (0, 1, 2), (2, 3, 4), (1, 3), (0, 2, 4), (0, 1, 2, 3),
                  (4,), (1, 2, 3, 4)]
         return nodes + [9], cands
+    if name == "n1":  # a single node, with or without its singleton hyperedge
+        return [7], [(7,)]
+    if name == "n2":
+        return [0, 1], [(0, 1), (0,), (1,)]
     if name == "str4":
         nodes = ["a", "b", "c", "d"]
         cands = [e for r in (2, 3) for e in itertools.combinations(nodes, r)]
@@ -237,6 +241,9 @@ def obligations(tier, seed):
         for fixed in itertools.product([0, 1], repeat=nfix):
             for fmode in ("none", "order", "size"):
                 out.append({"family": "cc", "cands": cname, "fixed": list(fixed), "fmode": fmode, "reverse": rev})
+    for cname in ("n1", "n2"):
+        for fmode in ("none", "order", "size"):
+            out.append({"family": "cc", "cands": cname, "fixed": [], "fmode": fmode, "reverse": False})
     for kind in ("deg-directed", "deg-temporal", "deg-multiplex"):
         for fixed in itertools.product([0, 1], repeat=2 if q else 2):
             for fmode in ("none", "order", "size"):
@@ -254,7 +261,7 @@ def budget(tier):
 
 META = {
     "bounds": {
-        "quick": "Hypergraph on nodes {0,1,2,3} + an isolated node: all 2^10 sub-families of the 10 pairs/triples (split "
+        "quick": "one- and two-node hypergraphs (all sub-families of their singletons / pair); Hypergraph on nodes {0,1,2,3} + an isolated node: all 2^10 sub-families of the 10 pairs/triples (split "
                  "16 ways by the first four presence bits), filter none / order=f / size=f with f an unbounded symbolic "
                  "integer; degree of Directed/Temporal/Multiplex containers over 8 presence bits each",
         "thorough": "adds: 14+1 candidates incl. singletons and the 4-set (2^15, reversed insertion order), a 12-candidate "
